@@ -516,7 +516,7 @@ fn count_kinds(ctx: &mut Ctx, nodes: &[Node]) {
             Agg::Hist { field, date_hist, hard, ext, offset, mdc, .. } => format!("agg:{}:{}{}{}{}{}", if *date_hist { "date_histogram" } else { "histogram" }, field.name(), if hard.is_some() { "+hard" } else { "" }, if ext.is_some() { "+ext" } else { "" }, if offset.is_some() { "+offset" } else { "" }, if mdc.unwrap_or(0) > 0 { "+mdc" } else { "" }),
             Agg::Range { field, .. } => format!("agg:range:{}", field.name()),
             Agg::Filter { field, .. } => format!("agg:filter:{}", field.name()),
-            Agg::Composite { sources, .. } => format!("agg:composite:{}", sources.iter().map(|c| format!("{}{}", c.field.name(), if c.interval.is_some() { "-hist" } else { "" })).collect::<Vec<_>>().join("+")),
+            Agg::Composite { sources, after, .. } => format!("agg:composite{}:{}", if after.is_some() { "+after" } else { "" }, sources.iter().map(|c| format!("{}{}", c.field.name(), if c.interval.is_some() { "-hist" } else { "" })).collect::<Vec<_>>().join("+")),
         };
         ctx.report.count(&k);
         if n.opt.keyed && matches!(n.agg, Agg::Hist { .. } | Agg::Range { .. }) { ctx.report.count("opt:keyed"); }
